@@ -3,7 +3,7 @@
 # ALSO: changes that break a neighbouring property's check as well / instead (see DESIGN.md 5.4)
 cd /verif
 mkdir -p .work/seedlogs
-declare -A ALSO=( [C03d]=C14 [C05d]=C04 [C08d]=C07 [C14c]=C03 [C01f]=C10 [C03e]=C09 [C08e]=C07 [C08f]=C07 [C15f]=C05 [C03g]=C14 [C08h]=C07 [C03i]=C14 [C09j]=C15 [C12i]=C12 )
+declare -A ALSO=( [C08i]=C07 [C01j]=C10 [C03d]=C14 [C05d]=C04 [C08d]=C07 [C14c]=C03 [C01f]=C10 [C03e]=C09 [C08e]=C07 [C08f]=C07 [C15f]=C05 [C03g]=C14 [C08h]=C07 [C03i]=C14 [C09j]=C15 [C12i]=C12 )
 ids="$@"
 [ -z "$ids" ] && ids=$(ls -d /tmp/seed/out/C??? | xargs -n1 basename)
 for s in $ids; do
